@@ -376,10 +376,14 @@ func Round(r *fw.Rand, k, procs, opsPerG int) (diverged string, nops int, names 
 	ops := BuildOps(r, k*opsPerG/2+1)
 	want := make([]string, len(ops))
 	names = map[string]int{}
-	for i, op := range ops {
-		want[i] = op.Run()
+	for _, op := range ops {
 		names[op.Name]++
 	}
+	// The concurrent phase runs FIRST, on whatever lazily built state the process has so far
+	// (the first round of a process is completely cold): a cache that is filled without
+	// synchronisation is only written while it is still growing, and a sequential warm-up
+	// pass over the same inputs would hide exactly that.  The sequential reference results
+	// are computed afterwards.
 	// assignment: goroutine g runs ops (g*opsPerG/2 + j) and a second, shifted copy
 	type job struct{ g, op int }
 	plan := make([][]int, k)
@@ -426,6 +430,9 @@ func Round(r *fw.Rand, k, procs, opsPerG int) (diverged string, nops int, names 
 	}
 	close(start)
 	wg.Wait()
+	for i, op := range ops {
+		want[i] = op.Run()
+	}
 	for g := 0; g < k; g++ {
 		for j, oi := range plan[g] {
 			nops++
